@@ -1,2 +1,197 @@
-/- C08 driver (stub until the model exists) -/
-def main : IO Unit := pure ()
+/- C08 driver: op lines in, observable lines out (same format as props/C08/harness.cpp). -/
+import TboxModel.Util
+import TboxModel.C08.Model
+open Tbox.Util Tbox.C08
+
+structure St where
+  cab  : Cab := {}
+  toks : Array Token := #[]
+  pool : PoolSys := PoolSys.init
+  fd   : FdSys := FdSys.init
+
+def maxObj : Nat := 1000
+def maxVal : Nat := 1000000
+def maxRaw : Nat := 4000000000
+
+def commaList (l : List String) : String := if l.isEmpty then "-" else ",".intercalate l
+def bit (b : Bool) : String := if b then "1" else "0"
+
+/-- decimal digits only (no `_` separators, which `String.toNat?` accepts), at most 14 of them -/
+def nat? (w : String) (bound : Nat) : Option Nat := do
+  if w.length ≥ 15 ∨ ¬ w.all Char.isDigit then none
+  let n ← w.toNat?
+  if n < bound then some n else none
+
+/-- `k:i,k:i,…` → pairs (invocation number, token index) -/
+def parseScript (w : String) (ntok : Nat) : Option (List (Nat × Nat)) :=
+  if w == "-" then some [] else
+  (w.splitOn ",").mapM fun item =>
+    match item.splitOn ":" with
+    | [k, i] => do pure (← nat? k 100000, ← nat? i ntok)
+    | _ => none
+
+def scriptFn (toks : Array Token) (ps : List (Nat × Nat)) : Nat → List Token :=
+  fun k => (ps.filter (·.1 = k)).map fun p => toks.getD p.2 {}
+
+def sizeStr (c : Cab) : String := "size=" ++ toString c.size
+
+def lookupTag (c : Cab) (t : Token) : String :=
+  if t.id = 0 then "tok-null" else
+  match c.cells[t.pos]? with
+  | none => "tok-out-of-range"
+  | some cell => if cell.id = t.id then "tok-live" else if cell.id = 0 then "tok-stale-freecell" else "tok-stale-reused"
+
+def cabLine (s : St) (ws : List String) : Option (St × List String) :=
+  match ws with
+  | ["alloc", o] => do
+      let o ← nat? o maxObj
+      let tag := if s.cab.firstFree ≠ sizeMax then "alloc-reuse" else "alloc-push"
+      let (c, r) := s.cab.alloc o
+      match r with
+      | none => pure ({ s with cab := c, toks := s.toks.push {} },
+                      ["B alloc-throw", "P alloc throw " ++ sizeStr c, "M tok - -"])
+      | some t =>
+          let dup := s.toks.toList.findIdx? (· == t)
+          let d := match dup with | some j => "dup=" ++ toString j | none => "fresh"
+          pure ({ s with cab := c, toks := s.toks.push t },
+                ["B " ++ tag, "P alloc " ++ d ++ " " ++ sizeStr c, "M tok " ++ toString t.id ++ " " ++ toString t.pos])
+  | ["at", i] => do
+      let t := s.toks[← nat? i s.toks.size]?.getD {}
+      pure (s, ["B " ++ lookupTag s.cab t, "P at=" ++ toString (s.cab.at' t)])
+  | ["atraw", id, pos] => do
+      let t : Token := ⟨← nat? id maxRaw, ← nat? pos maxRaw⟩
+      pure (s, ["B raw-" ++ lookupTag s.cab t, "M at=" ++ toString (s.cab.at' t)])
+  | ["upd", i, o] => do
+      let t := s.toks[← nat? i s.toks.size]?.getD {}
+      let (c, b) := s.cab.update t (← nat? o maxObj)
+      pure ({ s with cab := c }, ["B upd-" ++ lookupTag s.cab t, "P upd=" ++ bit b])
+  | ["free", i] => do
+      let t := s.toks[← nat? i s.toks.size]?.getD {}
+      let (c, o) := s.cab.free t
+      pure ({ s with cab := c }, ["B free-" ++ lookupTag s.cab t, "P free=" ++ toString o ++ " " ++ sizeStr c])
+  | ["clear"] =>
+      let c := s.cab.clear
+      some ({ s with cab := c }, [if s.cab.count > 0 then "B clear-nonempty" else "B clear-empty",
+                                  "P clear " ++ sizeStr c ++ " empty=" ++ bit (c.size == 0)])
+  | ["size"] => some (s, ["P " ++ sizeStr s.cab ++ " empty=" ++ bit (s.cab.size == 0)])
+  | ["reserve", n] => do
+      let _ ← nat? n 100000
+      pure (s, ["P ok"])
+  | ["scan"] =>
+      let vals := s.toks.toList.map fun t => toString (s.cab.at' t)
+      let stale := s.toks.toList.filter fun t => (s.cab.lookup t).isNone
+      some (s, ["B scan-stale=" ++ (if stale.length ≥ 100 then "100+" else if stale.length ≥ 10 then "10+" else if stale.length ≥ 1 then "1+" else "0"),
+                "P scan " ++ commaList vals])
+  | ["each", scr] => do
+      let ps ← parseScript scr s.toks.size
+      let (c, visP) := s.cab.foreach (scriptFn s.toks ps)
+      let vis := visP.map (·.2)
+      -- visiting order / reach under cross-removal depend on cell reuse: M line (see the harness)
+      let sorted := (vis.toArray.qsort (· < ·)).toList
+      pure ({ s with cab := c }, [if c.count < s.cab.count then "B each-removed" else "B each-plain",
+                                  "P each " ++ (if ps.isEmpty then commaList (sorted.map toString) else "*") ++ " " ++ sizeStr c ++ " deadvisit=0",
+                                  "M order " ++ commaList (vis.map toString)])
+  | _ => none
+
+def poolStatus (s : PoolSys) : String :=
+  let vals := s.slots.map fun o => match o with | none => "-" | some (_, v) => toString v
+  let st := s.pool.stat
+  "P pool ctor=" ++ toString s.pool.ctor ++ " dtor=" ++ toString s.pool.dtor ++ " vals=" ++ ",".intercalate vals ++
+  " stat=" ++ toString st.allocT ++ "/" ++ toString st.freeT ++ "/" ++ toString st.peakA ++ "/" ++ toString st.peakF ++ " alias=0"
+
+def poolLine (s : St) (ws : List String) : Option (St × List String) :=
+  match ws with
+  | ["alloc", h, v] => do
+      let h ← nat? h nPoolSlots
+      let v ← nat? v maxVal
+      match s.pool.slots[h]? with
+      | some none =>
+          let tag := if s.pool.pool.parked.isEmpty then "pool-malloc" else "pool-reuse"
+          let (p, _) := s.pool.step (.alloc h v)
+          pure ({ s with pool := p }, ["B " ++ tag, poolStatus p])
+      | _ => pure (s, ["B pool-busy", "P busy"])
+  | ["free", h] => do
+      let h ← nat? h nPoolSlots
+      match s.pool.slots[h]? with
+      | some (some _) =>
+          let tag := if s.pool.pool.freeNum < s.pool.pool.keep then "pool-park" else "pool-release"
+          let (p, _) := s.pool.step (.free h)
+          pure ({ s with pool := p }, ["B " ++ tag, poolStatus p])
+      | _ => pure (s, ["B pool-none", "P none"])
+  | ["new", k] => do
+      let k ← if k == "max" then some sizeMax else nat? k 100000
+      let (p, _) := s.pool.step (.renew k)
+      pure ({ s with pool := p }, ["B pool-new", poolStatus p])
+  | ["stat"] => some (s, [poolStatus s.pool])
+  | _ => none
+
+def fdStatus (old s : FdSys) : List String :=
+  let hs := List.range nFdSlots
+  let g := hs.map fun h => toString (s.get h)
+  let nl := String.join (hs.map fun h => bit (s.isNull h))
+  let closed := (s.closeLog.drop old.closeLog.length).map fun (r, f) => toString r ++ (if f then ":f" else ":r")
+  let op := (List.range s.nextRes).filter fun r => ¬ s.closeLog.any (·.1 == r)
+  let refs := hs.map fun h => match s.detailOf h with
+    | none => "-"
+    | some d => match s.details[d]? with | none => "?" | some det => toString det.ref
+  ["P fd g=" ++ ",".intercalate g ++ " null=" ++ nl ++ " closed=" ++ commaList closed ++ " open=" ++ commaList (op.map toString),
+   "M ref=" ++ ",".intercalate refs]
+
+def fdTag (s : FdSys) (op : FdOp) : String :=
+  let relTag (h : Nat) : String :=
+    match s.detailOf h with
+    | none => "rel-null"
+    | some d => match s.details[d]? with
+        | none => "rel-?"
+        | some det => if det.ref = 1 then (if det.fd ≥ 0 then "rel-last-closes" else "rel-last-already-closed") else "rel-shared"
+  match op with
+  | .fresh h => "fresh-" ++ relTag h
+  | .opn h _ => "open-" ++ relTag h
+  | .copyCtor d c => "cpc-" ++ relTag d ++ (if (s.detailOf c).isNone then "-from-null" else "")
+  | .moveCtor d _ => "mvc-" ++ relTag d
+  | .copyAssign d c => if d = c then "cpa-self" else
+      (if s.detailOf d = s.detailOf c ∧ (s.detailOf d).isSome then "cpa-same-detail-" else "cpa-") ++ relTag d
+  | .moveAssign d c => if d = c then "mva-self" else
+      (if s.detailOf d = s.detailOf c ∧ (s.detailOf d).isSome then "mva-same-detail-" else "mva-") ++ relTag d
+  | .swap a b => if a = b then "swap-self" else "swap"
+  | .reset h => "reset-" ++ relTag h
+  | .close h => match s.detailOf h with
+      | none => "close-null"
+      | some d => match s.details[d]? with
+          | none => "close-?"
+          | some det => if det.fd < 0 then "close-again" else if det.ref > 1 then "close-shared" else "close-sole"
+
+def parseFd (ws : List String) : Option FdOp :=
+  let sl (w : String) := nat? w nFdSlots
+  match ws with
+  | ["new", h] => do pure (.fresh (← sl h))
+  | ["open", h, "fn"] => do pure (.opn (← sl h) true)
+  | ["open", h, "raw"] => do pure (.opn (← sl h) false)
+  | ["cpc", d, c] => do pure (.copyCtor (← sl d) (← sl c))
+  | ["mvc", d, c] => do pure (.moveCtor (← sl d) (← sl c))
+  | ["cpa", d, c] => do pure (.copyAssign (← sl d) (← sl c))
+  | ["mva", d, c] => do pure (.moveAssign (← sl d) (← sl c))
+  | ["swap", a, b] => do pure (.swap (← sl a) (← sl b))
+  | ["reset", h] => do pure (.reset (← sl h))
+  | ["close", h] => do pure (.close (← sl h))
+  | _ => none
+
+def fdLine (s : St) (ws : List String) : Option (St × List String) := do
+  let op ← parseFd ws
+  if ¬ op.ok then none
+  -- at most 200 descriptors per case (the harness holds real descriptors)
+  let tooMany : Bool := match op with | .opn _ _ => decide (s.fd.nextRes ≥ 200) | _ => false
+  if tooMany then none
+  let f := s.fd.step op
+  pure ({ s with fd := f }, ("B " ++ fdTag s.fd op) :: fdStatus s.fd f)
+
+def stepLine (s : St) (line : String) : St × List String :=
+  match words line with
+  | [] => (s, [])
+  | "case" :: _ => ({}, [line.trimAscii.toString])
+  | "cab" :: ws => match cabLine s ws with | some r => r | none => (s, ["bad-op"])
+  | "pool" :: ws => match poolLine s ws with | some r => r | none => (s, ["bad-op"])
+  | "fd" :: ws => match fdLine s ws with | some r => r | none => (s, ["bad-op"])
+  | _ => (s, ["bad-op"])
+
+def main : IO Unit := runDriver ({} : St) stepLine
